@@ -40,7 +40,7 @@ def run(ctx):
     if not ok:
         ctx.broken_obligation('Properties_C13.vo', getattr(ctx, 'broken', {}))
     exe = build_harness(ctx, 'fault_inject', extra_defs=MACRO_DEFS)
-    H = lib.Harness(exe, env={'ASAN_OPTIONS': 'detect_leaks=1:abort_on_error=0:allocator_may_return_null=1'})
+    H = lib.Harness(exe, env={'ASAN_OPTIONS': 'detect_leaks=1:abort_on_error=0:allocator_may_return_null=1:max_allocation_size_mb=512'})
 
     if ctx.replay_in:
         import json
@@ -240,8 +240,11 @@ def run(ctx):
                 l, toks = line('1:1', 'FA:%d:%d' % (k, rep), ops, 'FA:-1:0', k)
                 runs.append((name, 'alloc-callback', k, rep, model, l, toks))
             for k in range(0, ne1, step):
-                l, toks = line('1:1', 'FE:%d:%d' % (k, rep), ops, 'FE:-1:0', k)
-                runs.append((name, 'emit-callback', k, rep, model, l, toks))
+                # flatcc_builder_emit_fun fails with ANY non-zero return value
+                CODES = (-1, 1, 28, -5, 2147483647)
+                for code in (CODES if ctx.thorough else (CODES[(k + rep) % 5],)):
+                    l, toks = line('1:1', 'FE:%d:%d:%d' % (k, rep, code), ops, 'FE:-1:0', k)
+                    runs.append((name, 'emit-callback', k, rep, model, l, toks))
     ctx.log('%d scenarios, %d fault runs' % (len(scen), len(runs)))
     rr = lib.run_harness_resilient(H, [r[5] for r in runs], timeout=1500)
     ctx.log('fault runs done')
@@ -331,7 +334,7 @@ def run(ctx):
     # (FLATCC_BUILDER_ASSERT_ON_ERROR=0 keeps the `check` macro of builder.c from asserting on every reported failure; plain
     # FLATCC_ASSERTs stay active: a failure followed by reset / rebuild must not trip an internal consistency assertion)
     exe_a = build_harness(ctx, 'fault_inject', extra_defs=MACRO_DEFS + ['-DFLATCC_BUILDER_ASSERT_ON_ERROR=0'], ndebug=False, out_name='fault_inject_assert')
-    HA = lib.Harness(exe_a, env={'ASAN_OPTIONS': 'detect_leaks=1:abort_on_error=0:allocator_may_return_null=1'})
+    HA = lib.Harness(exe_a, env={'ASAN_OPTIONS': 'detect_leaks=1:abort_on_error=0:allocator_may_return_null=1:max_allocation_size_mb=512'})
     aruns = [r for r in runs if r[0].startswith('build:') and r[3] == 0 and r[1] != 'emit-callback']
     if not ctx.thorough: aruns = [r for r in aruns if r[0].split(':')[1][:6] in ('table0', 'shared', 'padded', 'random')]
     ar = lib.run_harness_resilient(HA, [r[5] for r in aruns], timeout=1500)
